@@ -319,21 +319,18 @@ theorem stagePath_spec (inp : Input) (ps : PathStage) (h : stagePath inp.optLang
     | none =>
       simp only [hlc, Option.map_none] at h
       unfold poStem
-      by_cases hsuf : ".po".toList.isSuffixOf inp.path = true
-      · simp only [hsuf, if_true] at h ⊢
-        by_cases hext : (splitext (basename inp.path)).2 = ".po".toList
-        · rw [basenameLanguage_eq _ hext] at h
-          simp only [Option.bind_some]
-          cases hk : known (splitext (basename inp.path)).1 with
-          | none => simp only [hk, Option.bind_none] at h; cases h; simp
-          | some l =>
-            simp only [hk, Option.bind_some] at h
-            cases hle : l.enc with
-            | none => simp only [hle, Option.isSome_none] at h; cases h; simp [hle]
-            | some e => simp only [hle, Option.isSome_some, if_true] at h; cases h; simp [hle]
-        · rw [basenameLanguage_assert _ hext] at h
-          cases h
-      · simp only [hsuf] at h ⊢
+      by_cases hext : (splitext (basename inp.path)).2 = ".po".toList
+      · simp only [hext, if_true] at h ⊢
+        rw [basenameLanguage_eq _ hext] at h
+        simp only [Option.bind_some]
+        cases hk : known (splitext (basename inp.path)).1 with
+        | none => simp only [hk, Option.bind_none] at h; cases h; simp
+        | some l =>
+          simp only [hk, Option.bind_some] at h
+          cases hle : l.enc with
+          | none => simp only [hle, Option.isSome_none] at h; cases h; simp [hle]
+          | some e => simp only [hle, Option.isSome_some, if_true] at h; cases h; simp [hle]
+      · simp only [hext, if_false] at h ⊢
         cases h
         simp
 
